@@ -1,17 +1,8 @@
-// ---- compiler_helpers_assumed.rs: contracts of small compiler helpers as VERIFIED verbatim in unit c11_control ----
+// ---- compiler_helpers_assumed.rs: contracts of small compiler helpers, copied from unit c11_control which verifies their real bodies ----
 impl LoopContext {
-    #[verifier::external_body]
-    fn new(start: usize) -> (c: Self) ensures c.start == start, c.break_instructions@.len() == 0 { unimplemented!() }
+//@ASSUMES unit=c11_control.rs after="impl LoopContext {" fn=new full=1
 }
 impl Compiler {
-    // PROVED-BY: unit c11_control
-    #[verifier::external_body]
-    fn last_instruction_is(&self, op: OpCode) -> (b: bool) ensures b == (self.last_instruction == Some(op)) { unimplemented!() }
-    // PROVED-BY: unit c11_control
-    #[verifier::external_body]
-    fn remove_last_instruction(&mut self)
-        requires old(self).last_instruction == Some(OpCode::Pop), gen_inv(*old(self))
-        ensures final(self).instructions@ == old(self).instructions@.drop_last(), final(self).last_instruction is None,
-                same_but_code(*old(self), *final(self)), gen_inv(*final(self)),
-    { unimplemented!() }
+//@ASSUMES unit=c11_control.rs fn=last_instruction_is full=1
+//@ASSUMES unit=c11_control.rs fn=remove_last_instruction full=1
 }
